@@ -93,11 +93,16 @@ func load(o *options) (*interp.Machine, *ssa.Package) {
 		if f == "" {
 			continue
 		}
-		b, err := os.ReadFile(f)
+		b, err := os.ReadFile(strings.SplitN(f, "@", 2)[0])
 		if err != nil {
 			fatal("read harness: %v", err)
 		}
-		overlay[filepath.Join(dir, "zz_verif_"+filepath.Base(f))] = b
+		d := dir
+		if i := strings.Index(f, "@"); i > 0 {
+			// file@reldir: overlay into another package directory of the repository
+			d = filepath.Join(o.repo, f[i+1:])
+		}
+		overlay[filepath.Join(d, "zz_verif_"+filepath.Base(strings.SplitN(f, "@", 2)[0]))] = b
 	}
 	cfg := &packages.Config{Mode: packages.LoadAllSyntax, Dir: o.repo, Env: append(os.Environ(), "GOFLAGS=-mod=mod"), Overlay: overlay}
 	pat := "./" + o.pkg
